@@ -16,7 +16,7 @@ from ..ratinterp import Rat
 from .C06 import fold
 
 TOPO = "typhon/topography.py"
-EXPECT = {"C20.tiles": 3, "C20.overlap": 2, "C20.consts": 4, "C20.cache": 2, "C20.orient": 4, "C20.cover": 2, "C20.lonnorm": 2}
+EXPECT = {"C20.tiles": 3, "C20.overlap": 2, "C20.consts": 4, "C20.cache": 2, "C20.orient": 5, "C20.cover": 2, "C20.lonnorm": 2}
 
 
 def _tiles(ctx):
@@ -178,6 +178,10 @@ def rule_orient(ctx):
     # order of the mask computations: source masks computed before they are overwritten by the destination masks
     order = [k for k, v in seq if k in ("inds_lat", "inds_lon", "inds_s", "inds_d")]
     ctx.ob("SRTM30.elevation.order", order == ["inds_lat", "inds_lon", "inds_s", "inds_lat", "inds_lon", "inds_d"], "%s" % order, "source masks combined before the names are reused for the destination", node=lp, func=f)
+    # every tile is processed: nothing leaves the loop early
+    jumps = [norm(n) for n in walk_no_nested(lp) if isinstance(n, (ast.Break, ast.Continue, ast.Return))]
+    ctx.ob("SRTM30.elevation.all_tiles", not jumps and norm(lp.iter) == "tiles", "loop over %s; early exits: %s" % (norm(lp.iter), jumps or "none"),
+           "every tile named by get_tiles contributes its part of the block (no break / continue)", node=lp, func=f)
     # snapped bounds and inputs of the loop
     pre = {norm(st.targets[0]): norm(st.value).replace(" ", "") for st in f.body if isinstance(st, ast.Assign) and isinstance(st.targets[0], ast.Name)}
     okp = pre.get("lat_min") == "lats_d.min()-0.5*SRTM30._dlat" and pre.get("lat_max") == "lats_d.max()+0.5*SRTM30._dlat" \
